@@ -169,6 +169,7 @@ static void op_bad_tags(Ctx &c, const std::string &img_in, uint64_t from, uint64
 
 int main(int argc, char **argv) {
   std::string kind_s, input, state = "fresh", out, ops, skip, imgout, imgin, tdump;
+  bool neighbour = false;
   Ctx c;
   uint64_t seed = 1;
   long memalloc = 0, qbs = -1;
@@ -191,6 +192,7 @@ int main(int argc, char **argv) {
     else if (a == "--memalloc") memalloc = atol(val().c_str());
     else if (a == "--img-out") imgout = val();
     else if (a == "--img-in") imgin = val();
+    else if (a == "--neighbour") neighbour = true;
     else if (a == "--tdump") tdump = val();
     else if (a == "--big") c.big = true;
     else if (a == "--qbs") qbs = atol(val().c_str());
@@ -241,6 +243,32 @@ int main(int argc, char **argv) {
   strs.clear();
 
   // ---- build
+  // --neighbour: another, different dictionary of the same kind is built and searched first, stays alive while the dictionary under
+  // test is built, loaded and queried, and is searched again at the end: no dictionary may notice the other one
+  Model nbm;
+  StringDictionary *nb = NULL;
+  auto check_neighbour = [&](const char *when) {
+    for (size_t i = 0; i < nbm.n; i++) {
+      Pat p(nbm.S[i]);
+      obs::crumb("C14", "neighbour", std::string(when) + ": locate(" + nbm.S[i] + ") on the neighbour dictionary");
+      size_t id = nb->locate(p.b, (uint)p.len);
+      obs::count("eval.neighbour");
+      uint len = 0;
+      uchar *e = id >= 1 && id <= nbm.n ? nb->extract(id, &len) : NULL;
+      if (!e || nbm.S[i] != (char *)e)
+        obs::violation("C14,C01", "neighbour", "wrong-answer", when, std::string(when) + ": the neighbour dictionary {alpha..zeta} answers locate/extract(" + nbm.S[i] + ") with id " + std::to_string(id));
+      delete[] e;
+    }
+  };
+  if (neighbour && state != "cold" && state != "coldgen") {
+    std::string w = nbm.init({"alpha", "alpine", "beta", "betamax", "gamma", "gammb", "zeta"});
+    Params NP = c.P;
+    if (c.kind == K_FMINDEX && NP.p3 > 7) NP.p3 = 4;
+    obs::crumb("C07", "build", "neighbour dictionary");
+    nb = build_dict(c.kind, NP, nbm);
+    obs::count("cls.neighbour_dictionary");
+    check_neighbour("before");
+  } else neighbour = false;
   // "cold" / "coldgen": this process builds nothing; it loads (own / generic loader) an image that another process wrote to --img-in
   bool cold = state == "cold" || state == "coldgen";
   std::string lstate = state == "cold" ? "own" : state == "coldgen" ? "gen" : state;
@@ -397,6 +425,7 @@ int main(int argc, char **argv) {
   if (lstate == "own" || lstate == "gen" || lstate == "concat" || lstate == "heir") obs::extra_props = ",C06";
   if (state == "resaved") obs::extra_props = ",C06,C08";
   if (state == "survivor") obs::extra_props = ",C14";   // another object's life cycle changed this object's answers
+  if (neighbour) obs::extra_props += ",C14";
   strncpy(obs::extra_props_c, obs::extra_props.c_str(), sizeof(obs::extra_props_c) - 1);
 
   if (c.d) {
@@ -419,9 +448,14 @@ int main(int argc, char **argv) {
       emit_image("final", f);
       if (!imgout.empty() && state == "fresh") { std::ofstream o(imgout, std::ios::binary); o.write(f.data(), f.size()); }
     }
+    if (neighbour) check_neighbour("after");
     obs::crumb("C07", "destroy", "delete dictionary");
     delete c.d;
     c.d = NULL;
+  }
+  if (nb) {
+    obs::crumb("C07", "destroy", "delete neighbour dictionary");
+    delete nb;
   }
   for (auto &kv : c.tsec)
     obs::line("T\t" + kv.first + "\t" + std::to_string(kv.second.raw) + "\t" + std::to_string(kv.second.norm) + "\t" + std::to_string(kv.second.items));
